@@ -73,6 +73,12 @@ func (b *backend) close() {
 func (b *backend) send(str string) { b.pending.WriteString(str) }
 
 func (b *backend) flush() error {
+	if dump := os.Getenv("GOSYM_DUMP"); dump != "" {
+		if f, err := os.OpenFile(dump+"."+b.name, os.O_APPEND|os.O_CREATE|os.O_WRONLY, 0o644); err == nil {
+			f.Write(b.pending.Bytes())
+			f.Close()
+		}
+	}
 	_, err := b.in.Write(b.pending.Bytes())
 	b.pending.Reset()
 	return err
@@ -100,11 +106,13 @@ type Solver struct {
 	NCross     int
 	NDisagree  int
 	FeasTimeoutMs int
+	lastSliceWhole bool
+	modelCache map[string]map[string]uint64
 }
 
 func NewSolver(tb *TB, scratch string) (*Solver, error) {
 	s := &Solver{tb: tb, cache: map[string]Result{}, TimeoutMs: 5000, FeasTimeoutMs: 800, ExtTimeout: 120 * time.Second, scratch: scratch}
-	s.z3 = &backend{name: "z3", argv: []string{"z3", "-in"}, header: "(set-option :print-success false)\n", z3Timeout: true}
+	s.z3 = &backend{name: "z3", argv: []string{"z3-new", "-in"}, header: "(set-option :print-success false)\n(set-logic QF_BV)\n", z3Timeout: true}
 	s.cvc = &backend{name: "cvc5-int", argv: []string{"cvc5", "--incremental", "--solve-bv-as-int=sum", "--tlimit-per=3000"}, header: "(set-logic QF_BV)\n(set-option :produce-models true)\n"}
 	if err := s.z3.start(); err != nil {
 		return nil, err
@@ -282,10 +290,16 @@ func (s *Solver) check(conj []*Term, vars []*Term, vc bool) (Result, map[string]
 		}
 	}
 	key := cacheKey(live)
-	if vars == nil {
+	if vars == nil || !vc {
 		if r, ok := s.cache[key]; ok {
-			s.NCacheHit++
-			return r, nil
+			if vars == nil || r != Sat {
+				s.NCacheHit++
+				return r, nil
+			}
+			if m, ok := s.modelCache[key]; ok {
+				s.NCacheHit++
+				return r, m
+			}
 		}
 	}
 	if len(live) == 0 {
@@ -340,6 +354,12 @@ func (s *Solver) check(conj []*Term, vars []*Term, vc bool) (Result, map[string]
 	}
 	if res != Unknown || !vc {
 		s.cache[key] = res
+		if res == Sat && !vc && model != nil {
+			if s.modelCache == nil {
+				s.modelCache = map[string]map[string]uint64{}
+			}
+			s.modelCache[key] = model
+		}
 	}
 	return res, model
 }
@@ -362,12 +382,20 @@ func (s *Solver) runBackend(b *backend, live, vars []*Term, tmo int) (Result, ma
 	return res, model
 }
 
-// Feasible decides sat(pc AND c) using only the conjuncts of pc connected to c through shared variables
-// (pc itself is satisfiable by construction, so the disconnected part cannot change the answer).
+// Feasible decides sat(pc AND c) (see FeasibleModel).
 func (s *Solver) Feasible(pc []*Term, c *Term) Result {
+	r, _ := s.FeasibleModel(pc, c)
+	return r
+}
+
+// FeasibleModel decides sat(pc AND c) using only the conjuncts of pc connected to c through shared variables
+// (pc itself is satisfiable by construction, so the disconnected part cannot change the answer). On sat the values of
+// the variables of that slice are returned.
+func (s *Solver) FeasibleModel(pc []*Term, c *Term) (Result, map[string]uint64) {
 	cv := c.Vars()
+	s.lastSliceWhole = false
 	if len(cv) == 0 {
-		return s.Check([]*Term{c})
+		return s.check([]*Term{c}, nil, false)
 	}
 	inSet := map[int32]bool{}
 	for _, v := range cv {
@@ -398,13 +426,26 @@ func (s *Solver) Feasible(pc []*Term, c *Term) Result {
 		}
 	}
 	var q []*Term
+	whole := true
 	for i, p := range pc {
 		if used[i] {
 			q = append(q, p)
+		} else if len(p.Vars()) > 0 {
+			whole = false
 		}
 	}
 	q = append(q, c)
-	return s.Check(q)
+	s.lastSliceWhole = whole
+	vars := make([]*Term, 0, len(inSet))
+	for id := range inSet {
+		if v := s.tb.varByID[int(id)]; v != nil {
+			vars = append(vars, v)
+		}
+	}
+	if len(vars) == 0 {
+		return s.check(q, nil, false)
+	}
+	return s.check(q, vars, false)
 }
 
 func (b *backend) query(live []*Term, vars []*Term, timeoutMs int) (Result, map[string]uint64, error) {
